@@ -37,15 +37,20 @@ Check C12_self_dependency : forall fuel e me ts w,
   build (S fuel) e MIfChange ts w = Ret (w, [], 208%Z).
 Print Assumptions C12_self_dependency.
 
-(* a recorded dependency chain that comes back to a file being checked *)
-Theorem C12_check_cycle : forall fuel runid cyc w c f r mx seen,
+(* a recorded dependency chain that comes back to a file being checked: the
+   walk stops there, changes nothing and answers "dirty" (fix F78: recorded
+   rows may be stale -- an edge a killed build had only flagged for deletion
+   next to the reverse edge its successor recorded -- and say nothing about
+   the scripts; a cycle the scripts contain is found by the lock check when
+   they run, C12_self_dependency above) *)
+Theorem C12_recorded_cycle_ends_the_walk : forall fuel runid cyc w c f r mx seen,
   existsb (Nat.eqb f) seen = true ->
-  is_dirty (S fuel) runid cyc w c f r mx seen = Ret (VCycle, w, c, []).
+  is_dirty (S fuel) runid cyc w c f r mx seen = Ret (VDirty, w, c, []).
 Proof. exact is_dirty_cycle_detected. Qed.
-Check C12_check_cycle : forall fuel runid cyc w c f r mx seen,
+Check C12_recorded_cycle_ends_the_walk : forall fuel runid cyc w c f r mx seen,
   existsb (Nat.eqb f) seen = true ->
-  is_dirty (S fuel) runid cyc w c f r mx seen = Ret (VCycle, w, c, []).
-Print Assumptions C12_check_cycle.
+  is_dirty (S fuel) runid cyc w c f r mx seen = Ret (VDirty, w, c, []).
+Print Assumptions C12_recorded_cycle_ends_the_walk.
 
 Definition C12_full_statement : Prop :=
   True (* every invocation whose requested closure contains a cycle terminates in bounded time
